@@ -729,3 +729,12 @@ def site_table(fn, facts, domain=range(256)):
             raise Unreadable("overlapping rows")
         cover |= r["vals"]
     return A, rows
+
+
+def byte_table(fn, facts):
+    """rows of a u8 -> Result conversion: the single-match form, or any form site_table can read"""
+    try:
+        return conversion_table(fn, facts)
+    except Unreadable:
+        A, rows = site_table(fn, facts)
+        return None, rows
